@@ -63,6 +63,8 @@ impl DeliveryState {
 
 impl Drop for DeliveryState {
     fn drop(&mut self) {
+        #[cfg(feature = "verif-hooks")]
+        signal_hook_registry::verif::point(signal_hook_registry::verif::site::IT_DROP_BEGIN, 0, 0);
         let lock = self.registered_signal_ids.lock().unwrap();
         for id in lock.iter().filter_map(|s| *s) {
             crate::low_level::unregister(id);
@@ -140,7 +142,11 @@ impl<E: Exfiltrator> AddSignal for PendingSignals<E> {
             let slot = &self.slots[signal as usize];
             let ex = &self.exfiltrator;
             ex.store(slot, signal, act);
+            #[cfg(feature = "verif-hooks")]
+            signal_hook_registry::verif::point(signal_hook_registry::verif::site::IT_A_STORED, signal as usize, 0);
             write.wake_readers();
+            #[cfg(feature = "verif-hooks")]
+            signal_hook_registry::verif::point(signal_hook_registry::verif::site::IT_A_WOKEN, signal as usize, 0);
         };
         let id = unsafe { signal_hook_registry::register_sigaction(signal, action) }?;
         Ok(id)
@@ -191,12 +197,16 @@ impl Handle {
     ///   [`SignalOnly`] one supports all signals.
     pub fn add_signal(&self, signal: c_int) -> Result<(), Error> {
         let mut lock = self.delivery_state.registered_signal_ids.lock().unwrap();
+        #[cfg(feature = "verif-hooks")]
+        signal_hook_registry::verif::point(signal_hook_registry::verif::site::IT_ADD_LOCKED, signal as usize, 0);
         // Already registered, ignoring
         if lock[signal as usize].is_some() {
             return Ok(());
         }
 
         let id = Arc::clone(&self.pending).add_signal(Arc::clone(&self.write), signal)?;
+        #[cfg(feature = "verif-hooks")]
+        signal_hook_registry::verif::point(signal_hook_registry::verif::site::IT_ADD_REGISTERED, signal as usize, 0);
 
         lock[signal as usize] = Some(id);
 
@@ -218,6 +228,8 @@ impl Handle {
     /// The goal is to be able to shut down any background thread that handles only the signals.
     pub fn close(&self) {
         self.delivery_state.closed.store(true, Ordering::SeqCst);
+        #[cfg(feature = "verif-hooks")]
+        signal_hook_registry::verif::point(signal_hook_registry::verif::site::IT_CLOSE_FLAGGED, 0, 0);
         self.write.wake_readers();
     }
 
@@ -303,6 +315,8 @@ where
     fn flush(&mut self) {
         const SIZE: usize = 1024;
         let mut buff = [0u8; SIZE];
+        #[cfg(feature = "verif-hooks")]
+        signal_hook_registry::verif::point(signal_hook_registry::verif::site::IT_FLUSH_BEGIN, self.read.as_raw_fd() as usize, 0);
 
         unsafe {
             // Draining the data in the self pipe. We ignore all errors on purpose. This
@@ -321,6 +335,8 @@ where
             ) > 0
             {}
         }
+        #[cfg(feature = "verif-hooks")]
+        signal_hook_registry::verif::point(signal_hook_registry::verif::site::IT_FLUSH_END, self.read.as_raw_fd() as usize, 0);
     }
 
     /// Returns an iterator of already received signals.
@@ -353,6 +369,8 @@ where
         if self.handle.is_closed() {
             return Ok(None);
         }
+        #[cfg(feature = "verif-hooks")]
+        signal_hook_registry::verif::point(signal_hook_registry::verif::site::IT_PP_CLOSED_CHECKED, 0, 0);
 
         match has_signals(self.get_read_mut()) {
             Ok(false) => Ok(None),
@@ -394,6 +412,8 @@ impl<E: Exfiltrator> Iterator for Pending<E> {
     fn next(&mut self) -> Option<E::Output> {
         while self.position < self.pending.slots.len() {
             let sig = self.position;
+            #[cfg(feature = "verif-hooks")]
+            signal_hook_registry::verif::point(signal_hook_registry::verif::site::IT_SCAN, sig, 0);
             let slot = &self.pending.slots[sig];
             let result = self.pending.exfiltrator.load(slot, sig as c_int);
             if result.is_some() {
@@ -458,9 +478,13 @@ impl<SD, E: Exfiltrator> SignalIterator<SD, E> {
         // by a previous pending iterator due to the asynchronous nature of signals and
         // always moving to the end of the iterator before calling has_more.
         while !self.signals.borrow_mut().handle.is_closed() {
+            #[cfg(feature = "verif-hooks")]
+            signal_hook_registry::verif::point(signal_hook_registry::verif::site::IT_PS_LOOP, 0, 0);
             if let Some(result) = self.iter.next() {
                 return PollResult::Signal(result);
             }
+            #[cfg(feature = "verif-hooks")]
+            signal_hook_registry::verif::point(signal_hook_registry::verif::site::IT_PS_ITER_EMPTY, 0, 0);
 
             match self.signals.borrow_mut().poll_pending(has_signals) {
                 Ok(Some(pending)) => self.iter = pending,
